@@ -1,0 +1,67 @@
+//go:build verif
+
+package webp
+
+import "github.com/deepteams/webp/internal/verifhook"
+
+// Re-exports of internal/verifhook for the verification harness (C10, C12),
+// which cannot import internal packages.
+
+// VerifSiteNames returns the names of the GOMAXPROCS call sites, indexed by site number.
+func VerifSiteNames() []string { return append([]string(nil), verifhook.SiteNames[:]...) }
+
+// VerifSetWorkers forces the worker count read at one site (n <= 0: no override).
+func VerifSetWorkers(site, n int) { verifhook.SetWorkers(site, n) }
+
+// VerifSetAllWorkers forces the worker count of every site without its own override.
+func VerifSetAllWorkers(n int) { verifhook.SetAllWorkers(n) }
+
+// VerifSetParallel forces an algorithm choice: mode 0 none, 1 false, 2 true.
+func VerifSetParallel(site, mode int) { verifhook.SetParallel(site, mode) }
+
+// VerifResetOverrides removes all overrides.
+func VerifResetOverrides() { verifhook.ResetOverrides() }
+
+// VerifSiteHits returns how often each site was reached since VerifResetHits.
+func VerifSiteHits() []int64 { h := verifhook.SiteHits(); return append([]int64(nil), h[:]...) }
+
+// VerifResetHits clears the site counters.
+func VerifResetHits() { verifhook.ResetHits() }
+
+// VerifRange is one (site, start, end) range handed to a worker.
+type VerifRange = verifhook.RangeRec
+
+// VerifLogRanges switches range logging on/off (clears the log).
+func VerifLogRanges(on bool) { verifhook.LogRanges(on) }
+
+// VerifRanges returns the logged ranges.
+func VerifRanges() []VerifRange { return verifhook.Ranges() }
+
+// VerifEvent is one traced synchronisation point of the row-pipelined lossy encoder.
+type VerifEvent = verifhook.Event
+
+// VerifSetYield installs (nil: removes) the callback run at every synchronisation point.
+func VerifSetYield(f func(point, y, x int)) { verifhook.SetYield(f) }
+
+// VerifTrace switches event tracing on/off (clears the trace).
+func VerifTrace(on bool) { verifhook.Trace(on) }
+
+// VerifEvents returns the recorded events.
+func VerifEvents() []VerifEvent { return verifhook.Events() }
+
+// VerifGoid returns the calling goroutine's id.
+func VerifGoid() int64 { return verifhook.Goid() }
+
+// Points of the row pipeline (see internal/verifhook/sites.go).
+const (
+	VerifPointClaim      = verifhook.PointClaim
+	VerifPointMBBegin    = verifhook.PointMBBegin
+	VerifPointWaitEnter  = verifhook.PointWaitEnter
+	VerifPointWaitSlow   = verifhook.PointWaitSlow
+	VerifPointCondWait   = verifhook.PointCondWait
+	VerifPointMBStart    = verifhook.PointMBStart
+	VerifPointExport     = verifhook.PointExport
+	VerifPointSignal     = verifhook.PointSignal
+	VerifPointSignalSlow = verifhook.PointSignalSlow
+	VerifPointRecordRow  = verifhook.PointRecordRow
+)
